@@ -66,10 +66,17 @@ namespace rkcommon {
                     " INDEX_T to be unsigned char, short, int, uint, long,"
                     " or size_t.");
 
-      INDEX_T numBlocks = (nTasks + BLOCK_SIZE - 1) / BLOCK_SIZE;
+      // roundUp(N/M) without forming N + M, which overflows for N near the
+      // maximum of INDEX_T
+      INDEX_T numBlocks =
+          nTasks > 0 ? INDEX_T((nTasks - 1) / BLOCK_SIZE + 1) : INDEX_T(0);
       parallel_for(numBlocks, [&](INDEX_T blockID) {
         INDEX_T begin = blockID * (INDEX_T)BLOCK_SIZE;
-        INDEX_T end   = std::min<INDEX_T>(begin + (INDEX_T)BLOCK_SIZE, nTasks);
+        // nTasks - begin >= 1 here; begin + BLOCK_SIZE is only formed when it
+        // does not exceed nTasks
+        INDEX_T end   = (nTasks - begin > (INDEX_T)BLOCK_SIZE)
+                            ? INDEX_T(begin + (INDEX_T)BLOCK_SIZE)
+                            : nTasks;
         fcn(begin, end);
       });
     }
